@@ -72,6 +72,11 @@ class G:
             return [r.choice([0x20, 0x09, 0x0a, 0x0d]) for _ in range(n)]
         if n > 0 and k < 0.12:                       # ends with U+0000 / a blank
             return self._utf8(n - 1) + [r.choice([0x00, 0x00, 0x20, 0x0a])]
+        if n >= 3 and k < 0.22:                      # a byte order mark or another "invisible" code point first / last
+            sp = r.choice(["\ufeff", "\ufffe", "\u200b", "\u2028", "\u00a0", "\ufffd", "\u0085", "\u007f", "\u0001"]).encode()
+            if len(sp) <= n:
+                rest = self._utf8(n - len(sp))
+                return (list(sp) + rest) if r.random() < 0.7 else (rest + list(sp))
         if n > 1 and k < 0.16:                       # starts with U+0000 / a blank, or has one inside
             body = self._utf8(n - 1)
             body.insert(r.choice([0, 0, r.randrange(n)]), r.choice([0x00, 0x20]))
@@ -230,7 +235,8 @@ class G:
                 vl = r.choice([256, 257, 300])
             calls.append({"c": "new", "type": typ, "value": self.utf8(vl), "mode": r.choice(["borrowed", "cow_owned"])})
             if hist and r.random() < 0.15:
-                calls.append({"c": "prefix", "v": self.bytes_(r.randrange(0, 6)), "mode": "borrowed"})
+                # documented as having no effect on a non-PRIV item, whatever its length
+                calls.append({"c": "prefix", "v": self.bytes_(r.choice([r.randrange(0, 6), 254, 255, 256, 300])), "mode": "borrowed"})
         if hist and r.random() < 0.3:
             calls.append({"c": "into_owned"})
         if hist and r.random() < 0.15:
@@ -449,9 +455,9 @@ class G:
 
     def custom(self, hist=False, bad=None, fam=None):
         r = self.r
-        FAM = [(242, 12, True), (199, 4, False), (207, 8, True), (0, 16, True), (255, 12, True), (192, 28, True)]
+        FAM = [(242, 12, True), (199, 4, False), (207, 8, True), (0, 16, True), (255, 12, True), (192, 28, True), (242, 20, True)]
         if fam is None:
-            fam = r.randrange(6)
+            fam = r.randrange(7)
         pt, mn, hs = FAM[fam]
         fixed = 8 if hs else 4
         need = max(0, mn - fixed)
